@@ -247,7 +247,10 @@ _VERSION = itertools.count()
 
 class Tensor:
     __array_priority__ = 2000
-    _version = 0           # bumped by in-place operations (per tensor object; torch shares the counter between a base and its views)
+    @property
+    def _version(self):
+        # bumped by in-place operations; as in torch the counter is shared between a base and its views
+        return self._vcell[0]
     _conjbit = False       # torch's lazy-conjugation bit: set on the result of conj() of a complex tensor, kept by views/detach, dropped by clone and arithmetic
 
     def is_conj(self):
@@ -268,6 +271,7 @@ class Tensor:
         self.grad = None
         self.is_leaf = True
         self._node = None
+        self._vcell = [0]
 
     def __deepcopy__(self, memo):
         # torch: graph leaves only; the copy is a new leaf holding a copy of the data (same requires_grad, same class)
@@ -822,11 +826,13 @@ def _mk(a, dt, parents=(), view=False):
                 break
     if view and parents and _isinstance(parents[0], Tensor) and parents[0]._conjbit:
         t._conjbit = True
+    if view and parents and _isinstance(parents[0], Tensor) and _isinstance(t.a, _np.ndarray) and t.a.size and _np.may_share_memory(t.a, parents[0].a):
+        t._vcell = parents[0]._vcell          # a view shares the version counter of its base
     return t
 
 
 def _check_inplace(t):
-    t._version = t._version + 1
+    t._vcell[0] += 1
     if t.requires_grad and t.is_leaf and _GRAD_MODE[0]:
         raise RuntimeError('a leaf Variable that requires grad is being used in an in-place operation.')
 
